@@ -12,6 +12,7 @@ import Props.Defs
 import Proofs.Vector
 import Coma.Corr
 import Proofs.Peaks
+import Proofs.TranslateSec
 namespace Coma.Props
 open Coma Coma.Spec
 
@@ -131,5 +132,24 @@ example : (refine { res := 100, blur := 1, margin := 500, thr := 2, keep := 10 }
 /-- non-vacuity -/
 example : (vectorise [150, 420, 430, 999] 100 100 none).toOption = some [1, 0, 0, 1, 0, 0, 0, 0, 1] := by decide +kernel
 example : (blur [0, 0, 1, 0, 0, 0] 1).toOption = some [0, 1, 1, 1, 0, 0] := by decide +kernel
+
+/-! ### the secondary seeds move with the reference -/
+
+/-- Moving the reference and the selected primary peak `d` bp along the chromosome leaves the secondary correlation
+    unchanged and moves every secondary seed by exactly `d` (same heights, same order): bins are counted from the window
+    start, so nothing depends on the magnitude of the coordinates.  Hypothesis: the window end `peak + |query| + margin`
+    is positive before and after — every real run satisfies it (peak ≥ 0, a molecule has positive length). -/
+theorem C16_secondary_translation (c : SecCfg) (ref q : OMap) (rev : Bool) (peak d : Int)
+    (h0 : 0 < peak + q.length + c.margin) (hd : 0 < peak + d + q.length + c.margin) :
+    refine c (Coma.Proofs.shiftRef d ref) q rev (peak + d) = (refine c ref q rev peak).map (List.map fun p => (p.1 + d, p.2)) :=
+  Coma.Proofs.refine_shift_pos c ref q rev peak d h0 hd
+
+/-- without the hypothesis the claim is false, for a reason worth knowing: `vectorisePositions` reads a window end of
+    exactly 0 as "no end given" (`end or positions[-1]`) and extends the window to the last label.  Reachable only with
+    peak = |query| = margin = 0. -/
+theorem C16_secondary_translation_zero_end_counterexample :
+    ¬ ∀ (c : SecCfg) (ref q : OMap) (rev : Bool) (peak d : Int),
+      refine c (Coma.Proofs.shiftRef d ref) q rev (peak + d) = (refine c ref q rev peak).map (List.map fun p => (p.1 + d, p.2)) :=
+  Coma.Proofs.refine_shift_false
 
 end Coma.Props
